@@ -25,7 +25,7 @@ func init() {
 		Rule: "choice-tree exploration, NOT canonicalised: every corpus template x <=1 insertion from the 11-letter whitespace+comment alphabet x 6 whole-file transforms (identity, CRLF, BOM, tabs->spaces, indentation stripped, CRLF+BOM), " +
 			"and x <=2 insertions from {/*c*/, // c, newline} (thorough: <=2 from the full alphabet, <=3 from the small one on small templates); every candidate go/parser accepts is decorated and printed; " +
 			"oracle: output parses, token stream (kinds + identifier/literal text, all semicolons by kind, separators before closing delimiters dropped) == that of gofmt(input), comments == input's comments in order modulo whitespace; " +
-			"plus 7 hanging-indent contexts x every sequence of <=3 (thorough 4) comment lines at 4 indentations x {no blank line, blank line} x {LF, CRLF, spaces}; state = candidate text; non-trivial = candidate that is not already gofmt-canonical",
+			"every template with a //line directive carrying each line number 1..lines+2; plus 7 hanging-indent contexts x every sequence of <=3 (thorough 4) comment lines at 4 indentations x {no blank line, blank line} x {LF, CRLF, spaces}; state = candidate text; non-trivial = candidate that is not already gofmt-canonical",
 		Assumptions: []string{"go/scanner token stream defines 'token sequence'", "comment texts compared with all whitespace removed (the property allows whitespace to differ)"},
 		Units: func(tier string) []string {
 			u := gapUnits(gen.Templates(), c03Shards)
@@ -154,6 +154,16 @@ func runC03(ctx *core.Ctx, unit int) {
 			eval(applyTransform(cand, tr), ins, tr)
 		}
 	})
+	// (a') a //line directive after the package clause with every line number 1..lines+2: positions
+	// reported by the file set are then shifted against the physical lines in every possible way
+	if shard == 0 {
+		nl := strings.Count(t.Src, "\n")
+		if i := strings.Index(t.Src, "\n"); i >= 0 && strings.HasPrefix(t.Src, "package ") {
+			for n := 1; n <= nl+2; n++ {
+				eval(t.Src[:i+1]+fmt.Sprintf("\n//line v.go:%d\n", n)+t.Src[i+1:], nil, fmt.Sprintf("linedir:%d", n))
+			}
+		}
+	}
 	// (b) <=2 (thorough <=3 on small templates) insertions from the small alphabet
 	k2 := 2
 	if ctx.Thorough() && len(gen.Gaps(t.Src)) <= 45 {
@@ -255,6 +265,15 @@ func checkC03(src string) core.Outcome {
 		refToks = inToks
 	}
 	if !sameC03(refToks, outToks) {
+		// known: blank lines that are not empty (the "\r\n" of CRLF files, or whitespace-only lines) are
+		// not recognised (whitespace-only loss); when such a line separated two import groups the groups
+		// merge and gofmt sorts the merged group, so import specs change places. Same tokens as a multiset,
+		// and the same file with those lines emptied passes.
+		if core.IsKnown("C03-F4-nonempty-blank-line-between-import-groups") && sameTokMultiset(refToks, outToks) {
+			if norm := emptyBlankLines(src); norm != src && checkC03(norm).OK {
+				return core.Outcome{Known: "C03-F4-nonempty-blank-line-between-import-groups", Desc: desc("import groups separated by a non-empty blank line merged and re-sorted")}
+			}
+		}
 		i := firstTokDiff(refToks, outToks)
 		return core.Outcome{Key: "tokens-differ:" + tokName(refToks, i) + "/" + tokName(outToks, i), Desc: desc(fmt.Sprintf("token streams differ at token %d: gofmt has %s, output has %s", i, tokName(refToks, i), tokName(outToks, i)))}
 	}
@@ -361,4 +380,32 @@ func dropDirectives(cs []string) []string {
 		out = append(out, c)
 	}
 	return out
+}
+
+func sameTokMultiset(a, b []c03Tok) bool {
+	if len(a) != len(b) {
+		return false
+	}
+	m := map[c03Tok]int{}
+	for _, t := range a {
+		m[t]++
+	}
+	for _, t := range b {
+		m[t]--
+		if m[t] < 0 {
+			return false
+		}
+	}
+	return true
+}
+
+// emptyBlankLines turns CRLF into LF and empties whitespace-only lines.
+func emptyBlankLines(src string) string {
+	lines := strings.Split(strings.ReplaceAll(src, "\r\n", "\n"), "\n")
+	for i, l := range lines {
+		if strings.TrimSpace(l) == "" {
+			lines[i] = ""
+		}
+	}
+	return strings.Join(lines, "\n")
 }
